@@ -106,9 +106,13 @@ static Verdict check(const Fields &f) {
   std::vector<char> shrunk;  // parallel to live: was this block shrunk before?
   long long n = f.geti("n");
   auto verify = [&](const char *when, long long step) -> Verdict {
-    for (auto &b : live)
-      for (size_t i = 0; i < b.size; i++)
+    for (auto &b : live) {
+      // small blocks byte for byte after every step; large ones at both ends and at a stride (they are compared in
+      // full where it matters: the common prefix after each realloc)
+      size_t stride = b.size > 4096 ? 97 : 1;
+      for (size_t i = 0; i < b.size; i += (i < 256 || i + 256 >= b.size) ? 1 : stride)
         if (b.p[i] != b.pat) VF_FAIL("step %lld (%s): block of %zu bytes lost its contents at offset %zu", step, when, b.size, i);
+    }
     std::vector<std::pair<uintptr_t, size_t>> r;
     for (auto &b : live) r.emplace_back((uintptr_t)b.p, b.size);
     std::sort(r.begin(), r.end());
